@@ -6413,3 +6413,453 @@ func extraC09ChunkedBodiesInspected(c *Ctx, r *Report) {
 	addMutants(Mutant{Prop: "C09", Name: "inspector-skips-unknown-length", File: "internal/adapter/inspector/body_inspector.go", Rule: "C09-R13",
 		Old: "	if r.Body == nil || r.ContentLength == 0 {", New: "	if r.Body == nil || r.ContentLength < 1 {"})
 }
+
+// ---------- C10-R15: merge by name is refused only where a distinct id is generated ----------
+func init() { registerExtra("C10", extraC10MergeRefusalMatchesID) }
+
+func extraC10MergeRefusalMatchesID(c *Ctx, r *Report) {
+	r.Rule("C10-R15", "the unifier's merge-by-name test answers false only when both digests — the catalogue entry's and the incoming model's — are non-empty (and differ): that is the one case in which the id generator makes the new entry's id unique. Refusing the merge for a digest-less listing creates a second entry under the same id, and storing it overwrites the first together with the endpoints attributed to it", 1)
+	f := c.Fn("internal/adapter/unifier", "(*DefaultUnifier).canMergeByName")
+	if f == nil {
+		r.Unresolved("C10-R15", "(*DefaultUnifier).canMergeByName")
+		return
+	}
+	nonEmpty := func(facts []condFact) (newD, oldD bool) {
+		for _, cf := range normFacts(facts) {
+			bo, ok := cf.Cond.(*ssa.BinOp)
+			if !ok {
+				continue
+			}
+			var other ssa.Value
+			if k, isK := constString(bo.Y); isK && k == "" {
+				other = bo.X
+			} else if k, isK := constString(bo.X); isK && k == "" {
+				other = bo.Y
+			} else {
+				continue
+			}
+			if !((bo.Op == token.NEQ && cf.True) || (bo.Op == token.EQL && !cf.True)) {
+				continue
+			}
+			if mentionsField(other, "internal/adapter/unifier", "Model", "Digest", 2) {
+				newD = true
+			} else {
+				oldD = true // the digest read from the catalogue entry's metadata
+			}
+		}
+		return
+	}
+	key := fname(f) + ":refusal-needs-both-digests"
+	var bad token.Pos
+	n := 0
+	for _, vr := range virtualReturns(f, 0) {
+		if k, ok := vr.Val.(*ssa.Const); ok && k.Value != nil && k.Value.String() == "true" {
+			continue
+		}
+		n++
+		facts := vr.Facts
+		if len(vr.At.Block().Preds) >= 2 && len(facts) == 0 {
+			facts = condFacts(vr.At.Block())
+		}
+		newD, oldD := nonEmpty(facts)
+		if !(newD && oldD) {
+			bad = vr.Ret.Pos()
+		}
+	}
+	switch {
+	case bad.IsValid():
+		r.Bad("C10-R15", key, bad, "the merge can be refused although one of the digests is empty: the id generator then hands the new entry the same id as the existing one, and the catalogue slot — with the endpoints attributed through it — is overwritten")
+	case n == 0:
+		r.Undecided("C10-R15", key, f.Pos(), "the merge test never answers false")
+	default:
+		r.OK("C10-R15", key, f.Pos(), "a merge is refused only when both digests are known")
+	}
+	addMutants(Mutant{Prop: "C10", Name: "merge-refused-for-digestless-listing", File: "internal/adapter/unifier/default_unifier.go", Rule: "C10-R15",
+		Old: "	if newModel.Digest != \"\" && existing.Metadata != nil {", New: "	if existing.Metadata != nil {"})
+}
+
+// ---------- C11-R10: a provider prefix's listing route is served by a handler scoped to that provider ----------
+func init() { registerExtra("C11", extraC11ListingHandlerScoped) }
+
+func extraC11ListingHandlerScoped(c *Ctx, r *Report) {
+	r.Rule("C11-R10", "where listing routes are registered for a provider prefix (a function with the prefix as a string parameter), the handler is either built from that prefix (a call that receives the prefix parameter) or — when it is a fixed handler that lists the models of one constant provider — registered only under a positive equality test of the prefix / profile name with a constant (a deliberate special case for that provider). A fixed handler in a default arm serves every remaining prefix with the models of its own provider: /olla/vllm/v1/models would list what the inclusive openai handler lists", 5)
+	listsFixedProvider := func(h *ssa.Function) (string, bool) {
+		if h == nil {
+			return "", false
+		}
+		// through bound-method wrappers
+		for d := 0; d < 3 && h != nil && len(h.Blocks) == 1; d++ {
+			var only *ssa.Function
+			k := 0
+			eachInstr(h, func(in ssa.Instruction) {
+				if cc := getCall(in); cc != nil {
+					if sc := cc.StaticCallee(); sc != nil && c.inRepo(sc) {
+						only = sc
+						k++
+					}
+				}
+			})
+			if k != 1 {
+				break
+			}
+			h = only
+		}
+		prov, found := "", false
+		eachInstr(h, func(in ssa.Instruction) {
+			cc := getCall(in)
+			if cc == nil {
+				return
+			}
+			sc := cc.StaticCallee()
+			// the provider-scoped model query: a handlers function that takes a provider string and answers with unified models
+			if sc == nil || !strings.HasSuffix(fnPkgPath(sc), pkgHandlers) || sc.Signature.Results().Len() == 0 {
+				return
+			}
+			rs, isSl := sc.Signature.Results().At(0).Type().Underlying().(*types.Slice)
+			if !isSl || !isNamed(rs.Elem(), pkgDomain, "UnifiedModel") {
+				return
+			}
+			for _, a := range cc.Args {
+				if k, ok := constString(a); ok {
+					prov, found = k, true
+				}
+			}
+		})
+		return prov, found
+	}
+	n := 0
+	for _, f := range c.Funcs {
+		if f.Parent() != nil || !strings.HasSuffix(fnPkgPath(f), pkgHandlers) {
+			continue
+		}
+		var strParams []*ssa.Parameter
+		for _, p := range f.Params {
+			if p.Type().String() == "string" {
+				strParams = append(strParams, p)
+			}
+		}
+		if len(strParams) == 0 {
+			continue
+		}
+		eachInstr(f, func(in ssa.Instruction) {
+			cc := getCall(in)
+			if cc == nil {
+				return
+			}
+			name := ""
+			if cc.IsInvoke() {
+				name = cc.Method.Name()
+			} else if sc := cc.StaticCallee(); sc != nil {
+				name = sc.Name()
+			}
+			if !strings.HasPrefix(name, "Register") {
+				return
+			}
+			for _, a := range cc.Args {
+				var h *ssa.Function
+				switch x := a.(type) {
+				case *ssa.MakeClosure:
+					h, _ = x.Fn.(*ssa.Function)
+				case *ssa.Function:
+					h = x
+				case *ssa.ChangeType:
+					if mc, ok := x.X.(*ssa.MakeClosure); ok {
+						h, _ = mc.Fn.(*ssa.Function)
+					}
+				}
+				prov, fixed := listsFixedProvider(h)
+				if !fixed {
+					continue
+				}
+				n++
+				key := fmt.Sprintf("%s:listing-handler:%s", fname(f), prov)
+				special := false
+				for _, cf := range normFacts(condFacts(in.Block())) {
+					bo, ok := cf.Cond.(*ssa.BinOp)
+					if !ok || !((bo.Op == token.EQL && cf.True) || (bo.Op == token.NEQ && !cf.True)) {
+						continue
+					}
+					for _, p := range strParams {
+						_, kx := constString(bo.X)
+						_, ky := constString(bo.Y)
+						if (bo.X == ssa.Value(p) && ky) || (bo.Y == ssa.Value(p) && kx) {
+							special = true
+						}
+					}
+				}
+				// a multi-value case (`case A, B:`) reaches the block over several edges, each an equality
+				if !special && len(in.Block().Preds) >= 2 {
+					all := true
+					for _, pb := range in.Block().Preds {
+						ok := false
+						for _, cf := range normFacts(edgeFacts(pb, in.Block())) {
+							if bo, isB := cf.Cond.(*ssa.BinOp); isB && bo.Op == token.EQL && cf.True {
+								for _, p := range strParams {
+									if bo.X == ssa.Value(p) || bo.Y == ssa.Value(p) {
+										ok = true
+									}
+								}
+							}
+						}
+						if !ok {
+							all = false
+						}
+					}
+					special = all
+				}
+				if special {
+					r.OK("C11-R10", key, in.Pos(), "fixed handler for provider "+prov+", registered under an explicit test for that prefix / profile")
+				} else {
+					r.Bad("C11-R10", key, in.Pos(), "a handler that always lists the models of provider "+prov+" is registered for whatever prefix reaches this arm: other providers' prefixes list models their own endpoints do not serve")
+				}
+			}
+		})
+	}
+	if n == 0 {
+		r.Undecided("C11-R10", "fixed-listing-handlers", token.NoPos, "no fixed-provider listing handler registered in a prefix-parameterised function")
+	}
+	addMutants(Mutant{Prop: "C11", Name: "default-arm-serves-inclusive-listing", File: "internal/app/handlers/server_routes.go", Rule: "C11-R10",
+		Old: "			// Unknown providers still get OpenAI compatibility\n			a.routeRegistry.RegisterWithMethod(openAIPath,\n				a.genericProviderModelsHandler(prefix, constants.ProviderTypeOpenAI),",
+		New: "			// Unknown providers still get OpenAI compatibility\n			a.routeRegistry.RegisterWithMethod(openAIPath,\n				a.openaiModelsHandler,"})
+}
+
+// ---------- C12-R11: each optional sampling parameter is range-checked on its own ----------
+func init() {
+	registerExtra("C12", extraC12IndependentRangeChecks)
+	registerExtra("C12", extraC12RequestTextVerbatim)
+}
+
+func extraC12IndependentRangeChecks(c *Ctx, r *Report) {
+	r.Rule("C12-R11", "in AnthropicRequest.Validate a rejection for an out-of-range optional parameter (a comparison on the value behind one pointer field) is not conditional on another optional field being absent: the checks of temperature, top_p and top_k are independent, so a request with a valid temperature and an invalid top_p is still answered 400 instead of being sent upstream", 2)
+	f := c.Fn(pkgAnthropic, "(*AnthropicRequest).Validate")
+	if f == nil {
+		r.Unresolved("C12-R11", "(*AnthropicRequest).Validate")
+		return
+	}
+	ptrField := func(v ssa.Value) *types.Var {
+		// a load of a pointer-typed field of the request (r.TopP), possibly dereferenced once more (*r.TopP)
+		for d := 0; d < 3 && v != nil; d++ {
+			ld, ok := v.(*ssa.UnOp)
+			if !ok || ld.Op != token.MUL {
+				return nil
+			}
+			if fa, ok := ld.X.(*ssa.FieldAddr); ok {
+				o, fld, _ := fieldOf(fa)
+				if _, isPtr := fld.Type().Underlying().(*types.Pointer); isPtr && isNamed(o, pkgAnthropic, "AnthropicRequest") {
+					return fld
+				}
+				return nil
+			}
+			v = ld.X
+		}
+		return nil
+	}
+	n := 0
+	for _, ret := range returnsOf(f) {
+		if len(ret.Results) == 0 || isNilConst(ret.Results[len(ret.Results)-1]) {
+			continue
+		}
+		facts := normFacts(condFacts(ret.Block()))
+		if len(ret.Block().Preds) >= 2 {
+			for _, p := range ret.Block().Preds {
+				facts = append(facts, normFacts(edgeFacts(p, ret.Block()))...)
+			}
+		}
+		var ranged *types.Var
+		absent := map[*types.Var]bool{}
+		for _, cf := range facts {
+			bo, ok := cf.Cond.(*ssa.BinOp)
+			if !ok {
+				continue
+			}
+			switch bo.Op {
+			case token.LSS, token.GTR, token.LEQ, token.GEQ:
+				if fld := ptrField(bo.X); fld != nil {
+					ranged = fld
+				}
+			case token.EQL, token.NEQ:
+				if !isNilConst(bo.Y) {
+					continue
+				}
+				fld := ptrField(bo.X)
+				if fld == nil {
+					if ld, ok := bo.X.(*ssa.UnOp); ok {
+						if fa, ok := ld.X.(*ssa.FieldAddr); ok {
+							_, f2, _ := fieldOf(fa)
+							if _, isPtr := f2.Type().Underlying().(*types.Pointer); isPtr {
+								fld = f2
+							}
+						}
+					}
+				}
+				if fld == nil {
+					continue
+				}
+				isNil := (bo.Op == token.EQL) == cf.True
+				if isNil {
+					absent[fld] = true
+				}
+			}
+		}
+		if ranged == nil {
+			continue
+		}
+		n++
+		key := fmt.Sprintf("%s:range-check:%s", fname(f), ranged.Name())
+		var dep []string
+		for g := range absent {
+			if g != ranged {
+				dep = append(dep, g.Name())
+			}
+		}
+		sort.Strings(dep)
+		if len(dep) > 0 {
+			r.Bad("C12-R11", key, ret.Pos(), fmt.Sprintf("the range check of %s is only reached when %v is absent: with both present, an out-of-range %s passes validation and is forwarded upstream", ranged.Name(), dep, ranged.Name()))
+		} else {
+			r.OK("C12-R11", key, ret.Pos(), "checked whenever the field is present")
+		}
+	}
+	if n == 0 {
+		r.Undecided("C12-R11", "range-checks", token.NoPos, "no range check of an optional (pointer) field found in Validate")
+	}
+	addMutants(Mutant{Prop: "C12", Name: "range-checks-chained-by-else", File: "internal/adapter/translator/anthropic/types.go", Rule: "C12-R11",
+		Old: "	if r.TopP != nil && (*r.TopP < 0 || *r.TopP > 1) {", New: "	if r.Temperature == nil && r.TopP != nil && (*r.TopP < 0 || *r.TopP > 1) {"})
+}
+
+// ---------- C12-R12: request text reaches the upstream message unaltered ----------
+func extraC12RequestTextVerbatim(c *Ctx, r *Report) {
+	r.Rule("C12-R12", "on the request translation path (functions reachable from TransformRequest) no result of a text-altering strings function (TrimSpace, Trim…, ToLower/ToUpper, Replace…, Fields, Title) flows into a content block's Text or into a `content` / `text` entry of an outgoing message: system and user text arrives upstream exactly as sent, leading and trailing whitespace included", 0)
+	entry := c.Fn(pkgAnthropic, "(*Translator).TransformRequest")
+	if entry == nil {
+		r.Unresolved("C12-R12", "(*Translator).TransformRequest")
+		return
+	}
+	seen := map[*ssa.Function]bool{}
+	var visit func(f *ssa.Function)
+	visit = func(f *ssa.Function) {
+		if f == nil || seen[f] || f.Blocks == nil || !c.inRepo(f) {
+			return
+		}
+		seen[f] = true
+		for _, g := range withAnon(f) {
+			seen[g] = true
+			eachInstr(g, func(in ssa.Instruction) {
+				if cc := getCall(in); cc != nil {
+					if sc := cc.StaticCallee(); sc != nil {
+						visit(topParent(sc))
+					}
+				}
+			})
+		}
+	}
+	visit(entry)
+	altering := func(ci callInfo) bool {
+		if ci.Pkg != "strings" {
+			return false
+		}
+		switch {
+		case strings.HasPrefix(ci.Name, "Trim"), strings.HasPrefix(ci.Name, "To"), strings.HasPrefix(ci.Name, "Replace"), ci.Name == "Fields", ci.Name == "Title", ci.Name == "Map":
+			return true
+		}
+		return false
+	}
+	var reachesSink func(v ssa.Value, depth int, seenV map[ssa.Value]bool) token.Pos
+	reachesSink = func(v ssa.Value, depth int, seenV map[ssa.Value]bool) token.Pos {
+		if v == nil || depth == 0 || seenV[v] || v.Referrers() == nil {
+			return token.NoPos
+		}
+		seenV[v] = true
+		for _, ref := range *v.Referrers() {
+			switch x := ref.(type) {
+			case *ssa.Store:
+				if x.Val != v {
+					continue
+				}
+				if fa, ok := x.Addr.(*ssa.FieldAddr); ok && isField(fa, pkgAnthropic, "ContentBlock", "Text") {
+					return x.Pos()
+				}
+				if al, ok := x.Addr.(*ssa.Alloc); ok {
+					// a local (possibly captured) variable: follow its loads
+					for _, r2 := range *al.Referrers() {
+						if ld, ok := r2.(*ssa.UnOp); ok && ld.Op == token.MUL {
+							if p := reachesSink(ld, depth-1, seenV); p.IsValid() {
+								return p
+							}
+						}
+					}
+				}
+			case *ssa.MapUpdate:
+				if x.Value == v || (func() bool { mi, ok := x.Value.(*ssa.MakeInterface); return ok && mi.X == v })() {
+					if k, ok := constString(x.Key); ok && (k == "content" || k == "text") {
+						return x.Pos()
+					}
+				}
+			case *ssa.MakeInterface, *ssa.Phi, *ssa.ChangeType, *ssa.Convert:
+				if p := reachesSink(x.(ssa.Value), depth-1, seenV); p.IsValid() {
+					return p
+				}
+			case *ssa.BinOp:
+				if x.Op == token.ADD {
+					if p := reachesSink(x, depth-1, seenV); p.IsValid() {
+						return p
+					}
+				}
+			case ssa.CallInstruction:
+				cc := x.Common()
+				ci := describeCall(cc)
+				if ci.Recv == "Builder" && strings.HasPrefix(ci.Name, "Write") && len(cc.Args) == 2 && cc.Args[1] == v {
+					// text accumulated in a builder: its String() result
+					if refs := cc.Args[0].Referrers(); refs != nil {
+						for _, r2 := range *refs {
+							if c2 := getCall(r2); c2 != nil && describeCall(c2).Name == "String" {
+								if val, ok := r2.(ssa.Value); ok {
+									if p := reachesSink(val, depth-1, seenV); p.IsValid() {
+										return p
+									}
+								}
+							}
+						}
+					}
+				}
+				if b, ok := cc.Value.(*ssa.Builtin); ok && b.Name() == "append" {
+					if val, ok := x.(ssa.Value); ok {
+						if p := reachesSink(val, depth-1, seenV); p.IsValid() {
+							return p
+						}
+					}
+				}
+			}
+		}
+		return token.NoPos
+	}
+	n := 0
+	var fs []*ssa.Function
+	for f := range seen {
+		fs = append(fs, f)
+	}
+	sort.Slice(fs, func(i, j int) bool { return fname(fs[i]) < fname(fs[j]) })
+	for _, f := range fs {
+		idx := 0
+		eachInstr(f, func(in ssa.Instruction) {
+			call, ok := in.(*ssa.Call)
+			if !ok || !altering(describeCall(&call.Call)) {
+				return
+			}
+			idx++
+			n++
+			key := fmt.Sprintf("%s:%s#%d", fname(f), describeCall(&call.Call).Name, idx)
+			if p := reachesSink(call, 6, map[ssa.Value]bool{}); p.IsValid() {
+				r.Bad("C12-R12", key, in.Pos(), "the result of strings."+describeCall(&call.Call).Name+" becomes message text sent upstream ("+c.Pos(p)+"): the backend does not receive the text the client sent")
+			} else {
+				r.OK("C12-R12", key, in.Pos(), "used for a decision or a log line only, not as upstream text")
+			}
+		})
+	}
+	r.Extra["request_path_functions"] = len(fs)
+	if n == 0 {
+		r.Triv("C12-R12", "text-altering-calls", token.NoPos, "no text-altering strings call on the request translation path")
+	}
+	addMutants(Mutant{Prop: "C12", Name: "system-prompt-trimmed", File: "internal/adapter/translator/anthropic/token_count.go", Rule: "C12-R12",
+		Old: "		if systemStr != \"\" {", New: "		if systemStr = strings.TrimSpace(systemStr); systemStr != \"\" {",
+		Edits: []Edit{{"internal/adapter/translator/anthropic/token_count.go", "	\"net/http\"\n", "	\"net/http\"\n	\"strings\"\n"}}})
+}
